@@ -32,6 +32,15 @@ def check_namespace(run, ctx):
     real = sorted(n for n in names if _is_real(g, n))
     if real != want:
         raise Violation("namespace", "%s: names of real lines %s, expected %s\n%s" % (ctx, real, want, m.text()))
+    # identifiers known to the Gfa without a line that carries them: exactly those which some
+    # line mentions (placeholders); a name nobody carries or mentions is not in use
+    mentioned = set(m.undefined_mentions())
+    ghosts = sorted(n for n in names if n not in want and n not in mentioned)
+    if ghosts:
+        raise Violation("namespace-ghost", "%s: names lists %s, which no line carries or mentions\n%s" % (ctx, ghosts, m.text()))
+    for n in H.POOL["S"] + H.POOL["E"] + H.POOL["G"] + H.POOL["O"] + H.POOL["U"] + H.POOL["P"]:
+        if n not in want and n not in mentioned and (g.line(n) is not None):
+            raise Violation("lookup-ghost", "%s: line(%r) returns %r although no line carries or mentions that identifier" % (ctx, n, O.line_text(g.line(n))))
     parts = [list(map(str, x)) for x in (g.segment_names, g.edge_names, g.gap_names, g.path_names, g.set_names)]
     flat = sorted(n for p in parts for n in p)
     if flat != sorted(names):
